@@ -289,6 +289,11 @@ def run(c, a):
                        json.dumps({k: p.get("Result", {}).get(k) for k in ("result", "detail")}),
                        p.get("FollowUp", {}).get("follow"), p.get("FollowUp", {}).get("printer")),
                     {"kind": "streamobs-probe", "case": o, "events": p})
+    nskip = sum(1 for e in events if e["ev"] == "Skipped")
+    if nskip > max(3, len(cands) // 20):
+        raise Broken("%d of %d probes could not set up their rig (overloaded machine?): %s" % (
+            nskip, len(cands), [e["why"] for e in events if e["ev"] == "Skipped"][:2]))
+    c.coverage["probes_skipped_rig_not_up"] = nskip
     nprobes = sum(1 for e in events if e["ev"] == "Open")
     complete = [pid for pid, p in by_id.items() if "FollowUp" in p]
     variant = "pinned" if not not_cur else ("repaired" if not not_fixed else "neither")
